@@ -1,4 +1,5 @@
 use crate::runner::SubCheck;
+pub mod c20x;
 
 pub struct PropDef {
     pub id: &'static str,
